@@ -1,6 +1,7 @@
 """C13 — asynchronous FIFOs (structural necessary conditions, decided on the elaborate() bodies)."""
 import ast
 from ..engine.core import AnalysisError, need
+from ..engine.symx import run_paths
 from ..engine.astutil import unparse, dotted, pmatch, const_int, dump
 from ..engine.hdlmodel import ElabModel
 
@@ -292,6 +293,21 @@ def r13c(model, ctx):
     fb = model.func(f"{FIFO}::AsyncFIFOBuffered.__init__")
     t = unparse(fb)
     ok = "depth_bits = ceil_log2(max(0, depth - 1))" in t and "depth = (1 << depth_bits) + 1" in t
+    if not ok:
+        # the same rounding through other locals: the depth passed on is (1 << ceil_log2(max(0, depth - 1))) + 1 on every
+        # path where depth != 0
+        from ..engine.bitalg import Canon
+        cn = Canon()
+        want = cn(ast.parse("(1 << ceil_log2(max(0, depth - 1))) + 1", mode="eval").body)
+        ps = [p_ for p_ in run_paths([b for b in fb.body if not (isinstance(b, ast.Expr) and isinstance(b.value, ast.Constant))]) if p_.how != "raise"]
+        vals = []
+        for p_ in ps:
+            for e in p_.effects:
+                if isinstance(e, ast.Call) and unparse(e.func) == "super().__init__":
+                    vals += [(k.value, p_) for k in e.keywords if k.arg == "depth"]
+        need(vals, "AsyncFIFOBuffered.__init__: the depth handed to FIFOInterface was not found")
+        ok = all(cn(v) == want or unparse(v) in ("depth", "0") and
+                 any(unparse(t) in ("depth != 0",) and not pol or unparse(t) == "depth == 0" and pol for t, pol in p_.conds) for v, p_ in vals)
     ctx.check(ok, R, "AsyncFIFOBuffered.__init__:depth", "depth rounded to 2**n + 1 (inner depth 2**n >= 1)",
               "AsyncFIFOBuffered must round its depth to (1 << ceil_log2(max(0, depth - 1))) + 1", f"{FIFO}:{fb.lineno}")
 
